@@ -220,7 +220,7 @@ fn check_cfg(l: &mut Local<'_>, c: &Cfg, menu: &[(&'static str, ModSpec)]) {
 
 fn main() {
     let ctx = Ctx::from_env("C17");
-    ctx.rule("universe 'builder': mode x convert flag x mods {NM,HR,EZ,DT,HT,HRDT,EZHT,lazer DA} x clock rate {unset,0.01,0.5,0.75,1,1.5,2,100,1.234,0.875,33.333} x (ar with_mods, od with_mods) x swept attribute {ar,od,cs,hp}, each sweeping a 0.5 grid over [-20,20]; oracle = hit_windows()==build().hit_windows everywhere; on [0,10]: with_mods=true round trip (1e-9), windows non-increasing in OD/AR, windows x clock rate constant (mania excluded: floor/ceil formula), HR >= NM >= EZ. universe 'calculators': grammar maps x settings (overrides up to +-20, beyond the point where hit windows turn negative): OsuDifficultyAttributes.{ar, od(), *_hit_window, hp}, taiko windows and catch AR equal the builder's output for the same (converted) map and Difficulty; non-trivial = every builder case / stars > 0");
+    ctx.rule("universe 'builder': mode x convert flag x mods {NM,HR,EZ,DT,HT,HRDT,EZHT,lazer DA} x clock rate {unset,0.01,0.5,0.75,1,1.5,2,100,1.234,0.875,33.333} x (ar with_mods, od with_mods) x swept attribute {ar,od,cs,hp}, each sweeping a 0.5 grid over [-20,20]; oracle = hit_windows()==build().hit_windows everywhere; on [0,10]: with_mods=true round trip (1e-9), windows non-increasing in OD/AR, windows x clock rate constant (mania excluded: floor/ceil formula), HR >= NM >= EZ. universe 'builder-from-map': maps of all modes whose ar / od / cs / hp fields are set in code to {-5, 0, 5.5, 10, 12, 20}^4 x 4 mod sets: map.attributes() == BuilderFrom(&map) == new().map(&map) (build and hit_windows), and the native calculator's AR / HP / great window equal that builder's. universe 'calculators': grammar maps x settings (overrides up to +-20, beyond the point where hit windows turn negative): OsuDifficultyAttributes.{ar, od(), *_hit_window, hp}, taiko windows and catch AR equal the builder's output for the same (converted) map and Difficulty; non-trivial = every builder case / stars > 0");
 
     let menu = mods_menu();
     let radices: [u64; 7] = [4, 2, menu.len() as u64, RATES.len() as u64, 2, 2, 4];
@@ -238,6 +238,54 @@ fn main() {
         }
         check_cfg(l, &c, &menu);
     });
+
+    // builders made from a map: `map.attributes()`, `BeatmapAttributesBuilder::from(&map)` and `new().map(&map)` are one builder,
+    // also for maps whose public ar / od / cs / hp fields were set in code to values a file cannot carry
+    {
+        let vals: [f32; 6] = [-5.0, 0.0, 5.5, 10.0, 12.0, 20.0];
+        let mods = [0u32, settings::HR, settings::EZ | settings::HT, settings::DT];
+        let total = 4 * (vals.len() as u64).pow(4);
+        ctx.universe("builder-from-map", total, |idx, l| {
+            let mut r = idx;
+            let mut take = |n: u64| { let v = r % n; r /= n; v as usize };
+            let mode = take(4) as u8;
+            let (ar, od, cs, hp) = (vals[take(6)], vals[take(6)], vals[take(6)], vals[take(6)]);
+            let mut map = gen::MapSpec::new(mode, vec![gen::Obj { kind: gen::Kind::Circle, gap: 0, pos: gen::PosK::Far, sound: 0, col: 0 }, gen::Obj { kind: gen::Kind::Circle, gap: 150, pos: gen::PosK::Far, sound: 0, col: 1 }]).decode();
+            (map.ar, map.od, map.cs, map.hp) = (ar, od, cs, hp);
+            l.states(1);
+            l.nontrivial();
+            if l.want_sample() {
+                let mut o = J::obj();
+                o.set("universe", J::s("builder-from-map"));
+                o.set("index", J::i(idx));
+                o.set("map_fields", J::s(format!("mode {mode}: ar={ar} od={od} cs={cs} hp={hp}")));
+                l.sample(o);
+            }
+            for m in mods {
+                let a = map.attributes().mods(m);
+                let b = BeatmapAttributesBuilder::from(&map).mods(m);
+                let c = BeatmapAttributesBuilder::new().map(&map).mods(m);
+                l.checked(4);
+                let (ba, bb, bc) = (a.build(), b.build(), c.build());
+                if format!("{ba:?}") != format!("{bb:?}") || format!("{ba:?}") != format!("{bc:?}") || format!("{:?}", a.hit_windows()) != format!("{:?}", b.hit_windows()) {
+                    l.violation("builder_from_map", || format!("mode {mode}, map fields ar={ar} od={od} cs={cs} hp={hp}, mods bits {m}: three ways to make a builder from a map disagree\n map.attributes()                      : {ba:?}\n BeatmapAttributesBuilder::from(&map)  : {bb:?}\n BeatmapAttributesBuilder::new().map() : {bc:?}"));
+                    return;
+                }
+                // and the calculators see the same values
+                let attrs = api::difficulty(&Difficulty::new().mods(m), &map, mode).expect("native");
+                let bad = match &attrs {
+                    DifficultyAttributes::Osu(o) => o.ar != ba.ar || o.hp != ba.hp || o.great_hit_window != ba.hit_windows.od_great,
+                    DifficultyAttributes::Taiko(t) => t.great_hit_window != ba.hit_windows.od_great,
+                    DifficultyAttributes::Catch(ca) => ca.ar != ba.ar,
+                    DifficultyAttributes::Mania(_) => false,
+                };
+                if bad {
+                    l.violation("calculator_vs_builder_from_map", || format!("mode {mode}, map fields ar={ar} od={od} cs={cs} hp={hp}, mods bits {m}: the calculator's attributes differ from the builder made from the same map\n calculator: {attrs:?}\n builder   : {ba:?}"));
+                    return;
+                }
+            }
+        });
+    }
 
     // calculators vs builder
     let n_max = ctx.pick(2, 3);
